@@ -126,8 +126,14 @@ def render(case):
             for idx, atom in enumerate(block["atoms"]):
                 out.append("%d %s %d %s %s %d %s %s" % (idx + 1, atom["atype"], atom.get("resid", 1), atom.get("resname", block["name"]),
                                                         atom["name"], atom.get("cg", 1), atom.get("charge", "0.0"), atom.get("mass", "45.0")))
+            # `section_order` (optional): the directives of the block in another order — the lines of one section
+            # keep their order; the block is the same definition
+            ixns = block["ixns"]
+            if block.get("section_order"):
+                rank = {name: i for i, name in enumerate(block["section_order"])}
+                ixns = sorted(ixns, key=lambda item: rank.get(item[0], len(rank)))       # stable
             last = None
-            for section, atoms, params, meta in block["ixns"]:
+            for section, atoms, params, meta in ixns:
                 if section != last:
                     out.append("[ %s ]" % section)
                     last = section
